@@ -42,7 +42,7 @@ def walk(sc, obs):
             continue
         if op[0] in (20, 21, 1, 2):
             amt, (b2, q2) = sx.q(o[0]), qtabs(o[1])
-        elif op[0] == 8:
+        elif op[0] in (8, 15):
             amt, (b2, q2) = None, qtabs(o[0])
         elif op[0] == 12:
             amt, (b2, q2) = None, qtabs(o[1])
@@ -74,6 +74,7 @@ def mon_c11(sc, obs):
             continue
         qi = op[1]
         kd, opd, free, full, w, ovars = qobjs[qi][:6]
+        full = full == 1
         w = sx.bnd(w)
         rows = operand_table(nb, before, opd)
         if not rows:
@@ -141,6 +142,7 @@ def mon_c12_lower(sc, obs):
             continue
         qi = op[1]
         kd, opd, free, full, w, ovars = qobjs[qi][:6]
+        full = full == 1
         if opd >= nb:
             continue
         if free and last != [20, qi]:
@@ -156,6 +158,54 @@ def mon_c12_lower(sc, obs):
                 return (f"op #{n} downward of Forall {qi}: instance {g} receives the lower bound {y[0]} of grounding {key}", f"{got}", None)
             if kd == 1 and y[1] < 1 and got[1] > y[1]:
                 return (f"op #{n} downward of Exists {qi}: instance {g} receives the upper bound {y[1]} of grounding {key}", f"{got}", None)
+    return None
+
+
+@monitor("c12_forced")
+def mon_c12_forced(sc, obs):
+    """beyond the quantifier's own bound an instance is tightened exactly as far as the CURRENT bounds of the other
+    instances force it: new row = old row met with the n-ary Lukasiewicz inverse over the rows the operand shows now"""
+    from checks_fol import down_oracle
+    if whole_error(obs):
+        return None
+    kb, qobjs = sc[1], sc[5]
+    nb = len(kb)
+    valid = set()
+    for n, op, amt, before, after in walk(sc, obs):
+        if after is None:
+            return None
+        if op[0] == 20:
+            valid.add(op[1])
+            continue
+        if op[0] in (1, 2, 8):
+            valid.clear()
+            continue
+        if op[0] != 21:
+            continue
+        qi = op[1]
+        kd, opd, free, full, w, ovars = qobjs[qi][:6]
+        full = full == 1
+        if opd >= nb or (free and qi not in valid):
+            continue
+        rows = before[0][opd]
+        if not rows or any(r[0] > r[1] for r in rows.values()):
+            continue
+        groups = {}
+        for g in sorted(rows):
+            groups.setdefault(tuple(g[p] for p in free), []).append(g)
+        for key, gs in groups.items():
+            y = before[1][qi].get(key)
+            if y is None or y[0] > y[1]:
+                continue
+            inst = [rows[g] for g in gs]
+            new = down_oracle(2 if kd == 0 else 3, [0, F(1), [F(1)] * len(inst)], y, inst)
+            for g, old, nw in zip(gs, inst, new):
+                exp = (max(old[0], nw[0]), min(old[1], nw[1]))
+                got = after[0][opd][g]
+                vals = list(old) + list(y) + list(got)
+                tol = F(0) if all(v.denominator <= 1024 for v in vals) else F(1, 2 ** 16)
+                if abs(got[0] - exp[0]) > tol or abs(got[1] - exp[1]) > tol:
+                    return (f"op #{n} downward of {'Forall' if kd == 0 else 'Exists'} {qi} with bounds {y} at {key}: instance {g} (was {old}; the instances now read {inst}) becomes {exp}", f"{got}", None)
     return None
 
 
@@ -180,7 +230,7 @@ def qdist(meta):
 
 
 RULE_K7 = ("K7: random first-order KBs with 1-2 Forall/Exists objects (each binds one variable; over a unary predicate, a connective body with 1-3 variables, or another quantifier), "
-           "worlds OPEN/AXIOM, fully_grounded 20%; facts on predicates; ops: upward of the bodies, quantifier upward, then random quantifier upward/downward, body upward/downward and add_data+re-evaluation; "
+           "worlds OPEN/AXIOM, fully_grounded True 20% / not passed 60% / False passed 20%, explicit same-kind nests whose inner quantifier is fully grounded, polar fact tables 40%; facts on predicates; ops: upward of the bodies, quantifier upward, then random quantifier upward/downward, body upward/downward and add_data+re-evaluation; "
            "base tables and quantifier tables compared exactly after every call")
 
 
@@ -207,13 +257,16 @@ def gen_c12(ctx, n):
         worlds = [gen_fol.OPEN for _ in kb]
         hidden = {}
         data = []
+        # full-domain scenarios: every grounding of every predicate is a known instance from the start (possibly UNKNOWN), so a
+        # quantifier's value under the hidden reading is its value over the known instances
+        fulldom = rng.random() < 0.4
         for i, o in enumerate(kb):
             if o[0] == 0:
                 d = []
                 for g in all_gnds(o[3], nconst):
                     x = rng.choice([F(1), F(1), F(0), F(1, 2), F(3, 4)])
                     hidden[(i, g)] = x
-                    if rng.random() < 0.5:
+                    if fulldom or rng.random() < 0.5:
                         b = [x, x] if rng.random() < 0.5 else [rng.choice([v for v in gen_fol.G8 if v <= x]), rng.choice([v for v in gen_fol.G8 if v >= x])]
                         d.append([list(g), b])
                 if d:
@@ -236,15 +289,40 @@ def gen_c12(ctx, n):
         # quantifier data cannot be asserted (known finding); instead make some quantifiers axioms only when the hidden reading satisfies them
         nb = len(kb)
         for q in qobjs:
-            if q[1] < nb and rng.random() < 0.5:
+            if q[1] < nb and rng.random() < 0.6:
                 opd, free = q[1], q[2]
-                vals = [hidden[(opd, g)] for g in all_gnds(kb[opd][3], nconst)]
-                if q[0] == 0 and all(v == 1 for v in vals):
-                    q[4] = gen_fol.AXIOM
-                if q[0] == 1 and not free and any(v == 1 for v in vals) and False:
-                    q[4] = gen_fol.AXIOM
+                groups = {}
+                for g in all_gnds(kb[opd][3], nconst):
+                    groups.setdefault(tuple(g[p] for p in free), []).append(hidden[(opd, g)])
+                # worlds the hidden reading satisfies: the quantifier's own value under it lies inside the world bounds
+                ok = []
+                if q[0] == 0:
+                    if all(v == 1 for vs in groups.values() for v in vs):
+                        ok.append(gen_fol.AXIOM)
+                    if fulldom and all(sum(1 - v for v in vs) >= 1 for vs in groups.values()):
+                        ok.append(gen_fol.CLOSED)
+                else:
+                    if fulldom and all(sum(vs) >= 1 for vs in groups.values()):
+                        ok.append(gen_fol.AXIOM)
+                    if all(v == 0 for vs in groups.values() for v in vs):
+                        ok.append(gen_fol.CLOSED)
+                if ok:
+                    q[4] = rng.choice(ok)
         ops2 = [op for op in ops if op[0] != 8]
         ops2 += [[21, qi] for qi in range(len(qobjs)) if qobjs[qi][1] < nb]
+        if rng.random() < 0.6:
+            # reset_bounds() of single objects (facts stay), possibly a fact loosened around the hidden reading, then a
+            # downward-only step: the quantifier must read the rows as they are NOW
+            for _k in range(rng.choice([1, 2])):
+                i = rng.choice([q[1] for q in qobjs if q[1] < nb] + [rng.randrange(nb)])
+                ops2.append([15, i])
+                if kb[i][0] == 0 and rng.random() < 0.6:
+                    g = rng.choice(all_gnds(kb[i][3], nconst))
+                    x = hidden[(i, g)]
+                    ops2.append([8, i, [[list(g), [rng.choice([v for v in gen_fol.G8 if v <= x]), rng.choice([v for v in gen_fol.G8 if v >= x])]]]])
+            ops2 += [[21, qi] for qi in range(len(qobjs)) if qobjs[qi][1] < nb]
+            if rng.random() < 0.5:
+                ops2 += [[20, qi] for qi in range(len(qobjs))] + [[21, qi] for qi in range(len(qobjs)) if qobjs[qi][1] < nb]
         hid = [[i, list(g), x] for (i, g), x in hidden.items()]
         scs.append([50, kb, roots, worlds, data, qobjs, ops2, hid])
         meta.append(me)
@@ -254,12 +332,12 @@ def gen_c12(ctx, n):
 def check_C12(ctx):
     st, pr = standard_prologue(ctx)
     scs, meta = gen_c12(ctx, 400 if ctx.quick else 5000)
-    run_q(ctx, "K7 quantifier downward on ground-consistent tables", scs, ["c12_hidden", "c12_lower"], hashseeds=(0, 4))
+    run_q(ctx, "K7 quantifier downward on ground-consistent tables", scs, ["c12_hidden", "c12_lower", "c12_forced"], hashseeds=(0, 4))
     ctx.cov["distribution"] = qdist(meta)
     ctx.corpus(["d4_fq_downward.py"])
     ctx.assumptions.append("downward through a quantifier whose operand is itself a quantifier is not modelled (checked only through the corpus witnesses)")
     return ctx.finish("proof", pr, st, rule=RULE_K7 + "; C12: facts are bounds around a hidden ground interpretation of the predicates (quantifiers OPEN, or AXIOM when the hidden reading satisfies them); "
-                      "monitors: every instance row still contains the hidden value after every call; a Forall's lower / an Exists' upper bound reaches every instance of its grounding")
+                      "monitors: every instance row still contains the hidden value after every call; a Forall's lower / an Exists' upper bound reaches every instance of its grounding; every instance row after a downward step equals the old row met with the n-ary inverse over the rows the operand shows at that moment (also after reset_bounds() of single objects without a new upward pass)")
 
 
 CHECKS = {"C11": check_C11, "C12": check_C12}
